@@ -29,7 +29,7 @@ claim("C06", "guard inventory with phi operand shapes + store-guard dominance",
       "Decides that a redistributed shard / zero sharing is only released behind the old-pk = new-pk, per-sender verification, partial-pk and identity guards, with the trusted reference chosen under the same conditions as on the reference tree. Does not decide invariance of the secret over operation histories.",
       NOTE_COMMON, "§5 C06")
 claim("C07", "reader-provenance dataflow + sampler inventory",
-      "Decides that every io.Reader consumed by library code originates from the caller's reader (parameter / field stored from a parameter / enumerated deterministic derivation), that no ambient entropy source or reader-ignoring stdlib function is used (three known findings listed), that sampler errors are not ignored, reads are full-length into non-empty buffers, and that no function stops sampling compared with the frozen sampler inventory. Does not decide statistical quality or that joint values combine all contributions.",
+      "Decides that every io.Reader consumed by library code originates from the caller's reader (parameter / field stored from a parameter / enumerated deterministic derivation), that no ambient entropy source or reader-ignoring stdlib function is used (three known findings listed), that sampler errors are not ignored, reads are full-length into non-empty buffers, and that no function stops sampling, samples into a different buffer or hoists a sampler out of its loop compared with the frozen sampler inventory; plus guard/branch/sponge-op inventories over the protocol packages so that the loops folding every party's contribution into joint values keep their bounds and order. Does not decide statistical quality.",
       NOTE_COMMON, "§5 C07")
 claim("C08", "guard inventory + field-coverage of Bytes() + transcript-op order",
       "Decides presence/effectiveness/operands of all verification guards in the sigma protocols and compilers, that every statement/commitment/response Bytes() absorbs every field, and that prover and verifier perform the frozen labelled transcript operations in order. Does not decide completeness, extraction, simulation or OR-composition semantics.",
